@@ -112,9 +112,14 @@ def optimal(binner: Binner, numbins: int, items: List[any]) -> BinsArray:
         bins2 = current_heap.pop()
 
         tmp_stack_extension = []
+        sums_of_children = set()    # combinations with the same sums lead to the same subtree: only the first one is explored, whichever bins-manager is used.
 
         # for new_bins in bins1.all_combinations(bins2):
         for new_bins in binner.all_combinations(bins1, bins2):
+            new_sums = tuple(binner.sums(new_bins))
+            if new_sums in sums_of_children:
+                continue
+            sums_of_children.add(new_sums)
             tmp_heap = current_heap.clone()
             tmp_heap.push(new_bins)
             tmp_stack_extension.append(tmp_heap)
@@ -194,7 +199,12 @@ def generator(
         bins2 = current_heap.pop()
 
         tmp_stack_extension = []
+        sums_of_children = set()    # combinations with the same sums lead to the same subtree: only the first one is explored, whichever bins-manager is used.
         for new_bins in binner.all_combinations(bins1, bins2):
+            new_sums = tuple(binner.sums(new_bins))
+            if new_sums in sums_of_children:
+                continue
+            sums_of_children.add(new_sums)
             tmp_heap = current_heap.clone()
             tmp_heap.push(new_bins)
             tmp_stack_extension.append(tmp_heap)
